@@ -10,6 +10,7 @@ def one(d):
     name = os.path.basename(d.rstrip("/"))
     wt = "/tmp/suitewt-" + name
     subprocess.run(["git", "-C", "/repo", "worktree", "remove", "--force", wt], capture_output=True)
+    subprocess.run(["rm", "-rf", wt]); subprocess.run(["git", "-C", "/repo", "worktree", "prune"], capture_output=True)
     r = subprocess.run(["git", "-C", "/repo", "worktree", "add", "--detach", wt, "HEAD"], capture_output=True, text=True)
     if r.returncode:
         return name, {"error": "worktree: " + r.stderr[-200:]}
